@@ -867,7 +867,13 @@ func Main(args []string) int {
 				deepDone++
 			}
 			styles := []string{"json-indent2"}
-			if k%4 == 0 || replayAt != "" {
+			numericKey := false
+			for _, seg := range sp.Path {
+				if len(seg) > 0 && len(seg) <= 9 && strings.Trim(seg, "0123456789") == "" && len(sp.Path) >= 2 {
+					numericKey = true // e.g. responses/404: written plain in the YAML spelling
+				}
+			}
+			if k%4 == 0 || replayAt != "" || (numericKey && strings.Contains(sp.Path.String(), "/responses/")) {
 				styles = append(styles, "yaml-block2-numkeys")
 			}
 			k++
